@@ -255,7 +255,9 @@ func genField(r *detsim.Rand, i int, annotate bool) Field {
 	}
 	if r.Chance(1, 10) {
 		// values an escaping round trip would not leave alone: backslashes (proto2 defaults), a tab, an ideographic space, percent signs
-		f.Tags = append(f.Tags, []KV{{"protobuf_def", "bytes,9,opt,name=dir,def=C:\\\\tmp\\\\x"}, {"comment", "全角\u3000空格"}, {"fmt", "100%d of %s"}, {"path", "a\\b\tc"}}[r.Intn(4)])
+		f.Tags = append(f.Tags, []KV{{"protobuf_def", "bytes,9,opt,name=dir,def=C:\\\\tmp\\\\x"}, {"comment", "全角\u3000空格"}, {"fmt", "100%d of %s"}, {"path", "a\\b\tc"},
+			// ... and dollar signs: text a regexp replacement TEMPLATE would expand ($$ -> $, $name -> nothing) every time it passes through one
+			{"doc", "cost $$5"}, {"tpl", "${name}x$1y"}, {"price", "$100 or $$"}}[r.Intn(7)])
 	}
 	if r.Chance(1, 12) {
 		// a literal that is not in the canonical one-blank form (hand-edited, another generator), or with an item whose value is empty:
